@@ -116,7 +116,7 @@ def make_calls(ctx: Ctx, d: specgen.Doc) -> list[dict]:
                 with_body = body_for(rng, body, d)
                 args.append({"body": with_body})
             calls.append({"id": f"{op['seg']}-{si}", "seg": op["seg"], "http": op["method"], "args": args,
-                          "plan": {"status": int(primary), "json": {}},
+                          "plan": {"status": specgen.status_int(primary), "json": {}},
                           "_exp": {"op": op, "supplied": supplied, "body": with_body, "omitted": [optional[i] for i in range(len(optional)) if i not in sub]}})
     return calls
 
@@ -301,7 +301,7 @@ def mk_doc(ctx: Ctx, trig: set[str]) -> specgen.Doc:
     return specgen.generate(ctx.rng, allow=trig, prof={"ops": (2, 5), "p_param": 0.9, "p_body": 0.7, "schemas": (2, 5),
                                                        "p_multi_media": 0.6 if "multi_request_media" in trig else 0.0,
                                                        "styles": ["camel", "snake", "kebab", "keywordish"], "p_self_ref": 0.0, "p_union": 0.0,
-                                                       "p_component_refs": 0.3})
+                                                       "p_component_refs": 0.3, "p_range_2xx": 0.08})
 
 
 def run_shard(ctx: Ctx) -> None:
@@ -352,6 +352,6 @@ def replay(ctx: Ctx, file: dict) -> None:
         names = {(a["name"], a["in"]) for a in supplied}
         omitted = [p for p in op["params"] if not p["required"] and (p["name"], p["in"]) not in names]
         primary = next((k for k in op["responses"] if k.startswith("2")), "200")
-        calls = [{"id": "replay", "seg": call["seg"], "http": call["http"], "args": call["args"], "plan": {"status": int(primary), "json": {}},
+        calls = [{"id": "replay", "seg": call["seg"], "http": call["http"], "args": call["args"], "plan": {"status": specgen.status_int(primary), "json": {}},
                   "_exp": {"op": op, "supplied": supplied, "body": body, "omitted": omitted}}]
     run_batch(ctx, [{"doc": d, "n": 1, "trigger": set(file.get("features", [])), "calls": calls}])
